@@ -6,9 +6,12 @@ package c03
 // "model" and the dependent rules are skipped.
 
 import (
+	"bytes"
 	"go/ast"
+	"go/printer"
 	"go/token"
 	"go/types"
+	"strconv"
 	"strings"
 
 	"golang.org/x/tools/go/cfg"
@@ -861,26 +864,30 @@ type Sender struct {
 	G    *cfgq.Graph
 	Fl   *Flow
 
-	SendFunc  types.Object // the local holding the closure
-	Lit       *ast.FuncLit
-	LG        *cfgq.Graph
-	LFl       *Flow
-	Tunnel    types.Object // the []cmdDetail batch
-	X         *XGraph      // the closure with the helpers of the package inlined
-	RC        *XCtx        // the frame that holds the range over the batch (the closure itself, or a helper)
-	RangeX    XPoint       // evaluation of the ranged expression
-	RangeExpr ast.Expr     // the ranged expression in the closure's vocabulary
-	Loop      ast.Stmt     // the loop over the batch: Range, or an index loop
-	LoopBody  *ast.BlockStmt
-	kBody     cfg.BlockKind
-	kHead     cfg.BlockKind
-	kDone     cfg.BlockKind
-	elem      func(ast.Expr) bool // element expression of an index loop (batch[i])
-	Range     *ast.RangeStmt
-	RangePt   cfgq.Point // RangeX when the range is in the closure itself
-	ItemVar   types.Object
-	Data      []*SendSite // Conn.Send calls (direct or through a forwarding wrapper) in the range body
-	Conn      types.Object
+	SendFunc types.Object // the local holding the closure
+	// When the flush routine was expanded at its call sites (see flushCopies): the first statement of
+	// every copy and the extent of every copy; Lit is then a synthetic literal around the first copy.
+	FlushStarts map[ast.Node]bool
+	FlushCopies [][2]token.Pos
+	Lit         *ast.FuncLit
+	LG          *cfgq.Graph
+	LFl         *Flow
+	Tunnel      types.Object // the []cmdDetail batch
+	X           *XGraph      // the closure with the helpers of the package inlined
+	RC          *XCtx        // the frame that holds the range over the batch (the closure itself, or a helper)
+	RangeX      XPoint       // evaluation of the ranged expression
+	RangeExpr   ast.Expr     // the ranged expression in the closure's vocabulary
+	Loop        ast.Stmt     // the loop over the batch: Range, or an index loop
+	LoopBody    *ast.BlockStmt
+	kBody       cfg.BlockKind
+	kHead       cfg.BlockKind
+	kDone       cfg.BlockKind
+	elem        func(ast.Expr) bool // element expression of an index loop (batch[i])
+	Range       *ast.RangeStmt
+	RangePt     cfgq.Point // RangeX when the range is in the closure itself
+	ItemVar     types.Object
+	Data        []*SendSite // Conn.Send calls (direct or through a forwarding wrapper) in the range body
+	Conn        types.Object
 
 	Select   *ast.SelectStmt
 	RecvComm *ast.AssignStmt // item := <-ds.sendBuf
@@ -1290,24 +1297,17 @@ func AnalyseSender(c *core.Ctx) *Sender {
 	// the closure: a literal bound to a local whose body -- or a helper of the package it calls --
 	// ranges over the []cmdDetail batch
 	type cand struct {
-		as *ast.AssignStmt
-		x  *XGraph
-		rc *XCtx
-		rs ast.Stmt // *ast.RangeStmt, or an index loop `for i := 0; i < len(batch); i++`
-		n  int
+		as  *ast.AssignStmt
+		x   *XGraph
+		rc  *XCtx
+		rs  ast.Stmt // *ast.RangeStmt, or an index loop `for i := 0; i < len(batch); i++`
+		n   int
+		lit *ast.FuncLit
 	}
 	var cands []cand
-	core.Inspect(fn.Decl.Body, func(n ast.Node) bool {
-		as, ok := n.(*ast.AssignStmt)
-		if !ok || len(as.Lhs) != 1 || len(as.Rhs) != 1 {
-			return true
-		}
-		fl, ok := ast.Unparen(as.Rhs[0]).(*ast.FuncLit)
-		if !ok {
-			return true
-		}
+	mkCand := func(as *ast.AssignStmt, fl *ast.FuncLit) cand {
 		x := NewXGraph(c.Program, cfgq.OfLit(c.Program, info, fl), info, fn.Decl, fn.Pkg.PkgPath)
-		cd := cand{as: as, x: x}
+		cd := cand{as: as, x: x, lit: fl}
 		seen := map[*XCtx]bool{}
 		for _, pt := range x.Points(func(XNode) bool { return true }) {
 			if seen[pt.C] {
@@ -1328,17 +1328,50 @@ func AnalyseSender(c *core.Ctx) *Sender {
 				return true
 			})
 		}
-		if cd.n > 0 {
+		return cd
+	}
+	core.Inspect(fn.Decl.Body, func(n ast.Node) bool {
+		as, ok := n.(*ast.AssignStmt)
+		if !ok || len(as.Lhs) != 1 || len(as.Rhs) != 1 {
+			return true
+		}
+		fl, ok := ast.Unparen(as.Rhs[0]).(*ast.FuncLit)
+		if !ok {
+			return true
+		}
+		if cd := mkCand(as, fl); cd.n > 0 {
 			cands = append(cands, cd)
 		}
 		return true
 	})
+	if len(cands) == 0 {
+		// the flush routine may have been a function or method that the normalisation expanded at
+		// each of its call sites: textually identical statement runs. One copy is analysed as the
+		// routine, the starts of all copies are its calls.
+		if runs := flushCopies(c, info, fn.Decl); len(runs) >= 2 {
+			first := runs[0]
+			fl := &ast.FuncLit{
+				Type: &ast.FuncType{Func: first[0].Pos(), Params: &ast.FieldList{}},
+				Body: &ast.BlockStmt{Lbrace: first[0].Pos(), List: first, Rbrace: first[len(first)-1].End()},
+			}
+			if cd := mkCand(nil, fl); cd.n > 0 {
+				cands = append(cands, cd)
+				s.FlushStarts = map[ast.Node]bool{}
+				for _, r := range runs {
+					s.FlushStarts[r[0]] = true
+					s.FlushCopies = append(s.FlushCopies, [2]token.Pos{r[0].Pos(), r[len(r)-1].End()})
+				}
+			}
+		}
+	}
 	if len(cands) != 1 {
 		return und("closure", fn.Decl.Pos(), "expected one local closure that ranges over the []cmdDetail batch, found %d", len(cands))
 	}
 	cd := cands[0]
-	s.SendFunc = core.ObjOf(info, cd.as.Lhs[0])
-	s.Lit = ast.Unparen(cd.as.Rhs[0]).(*ast.FuncLit)
+	if cd.as != nil {
+		s.SendFunc = core.ObjOf(info, cd.as.Lhs[0])
+	}
+	s.Lit = cd.lit
 	s.LG = cd.x.Root.G
 	s.LFl = cd.x.Root.Fl
 	s.X, s.RC = cd.x, cd.rc
@@ -1640,4 +1673,186 @@ func sameBlock(g *cfgq.Graph, a, b ast.Node) bool {
 	pa, ok1 := g.Find(a)
 	pb, ok2 := g.Find(b)
 	return ok1 && ok2 && pa.B == pb.B
+}
+
+// IsFlushCall: node calls the flush routine (the closure, or the start of an expanded copy of it).
+func (s *Sender) IsFlushCall(n ast.Node) bool {
+	if s.SendFunc != nil && IsCallTo(s.Info, s.SendFunc)(n) {
+		return true
+	}
+	return s.FlushStarts[n]
+}
+
+// InFlush: node lies inside the flush routine (the closure, or any expanded copy of it).
+func (s *Sender) InFlush(n ast.Node) bool {
+	if s.Lit != nil && s.Lit.Pos() <= n.Pos() && n.End() <= s.Lit.End() {
+		return true
+	}
+	for _, r := range s.FlushCopies {
+		if r[0] <= n.Pos() && n.End() <= r[1] {
+			return true
+		}
+	}
+	return false
+}
+
+// flushCopies finds the expanded copies of one routine that sends the batch:
+// the range statements over a []cmdDetail local that contain a conn.Send lie,
+// in each copy, inside the same statement run (compared by their printed
+// text, whitespace ignored). The runs are grown from the range statements
+// upwards while the enclosing statements are identical, then sideways over
+// identical neighbours. Copies that contain continue / goto / return are not
+// accepted (they would leave the routine in the middle).
+func flushCopies(c *core.Ctx, info *types.Info, decl *ast.FuncDecl) [][]ast.Stmt {
+	var ranges []*ast.RangeStmt
+	core.Inspect(decl.Body, func(m ast.Node) bool {
+		r, ok := m.(*ast.RangeStmt)
+		if !ok || !sliceOfCmd(info.TypeOf(r.X)) {
+			return true
+		}
+		has := false
+		core.Inspect(r.Body, func(k ast.Node) bool {
+			if call, ok := k.(*ast.CallExpr); ok && SendOf(info, call) != nil {
+				has = true
+			}
+			return true
+		})
+		if has {
+			ranges = append(ranges, r)
+		}
+		return true
+	})
+	if len(ranges) < 2 {
+		return nil
+	}
+	text := func(n ast.Node) string {
+		var b bytes.Buffer
+		if err := printer.Fprint(&b, c.Program.Fset, n); err != nil {
+			return "\x00" + strconv.Itoa(int(n.Pos()))
+		}
+		return strings.Join(strings.Fields(b.String()), "")
+	}
+	// statement chains from the function body down to each range
+	chains := make([][]ast.Stmt, len(ranges))
+	for i, r := range ranges {
+		for _, pn := range core.PathTo(decl.Body, r) {
+			if st, ok := pn.(ast.Stmt); ok {
+				chains[i] = append(chains[i], st)
+			}
+		}
+	}
+	// climb while all copies agree
+	up := 0
+	for {
+		ok := true
+		for i := range chains {
+			k := len(chains[i]) - 1 - (up + 1)
+			k0 := len(chains[0]) - 1 - (up + 1)
+			if k < 1 || k0 < 1 || text(chains[i][k]) != text(chains[0][k0]) {
+				ok = false
+			}
+		}
+		if !ok {
+			break
+		}
+		up++
+	}
+	var runs [][]ast.Stmt
+	type place struct {
+		list []ast.Stmt
+		idx  int
+	}
+	places := make([]place, len(chains))
+	for i := range chains {
+		top := chains[i][len(chains[i])-1-up]
+		parent := chains[i][len(chains[i])-2-up]
+		var list []ast.Stmt
+		switch p := parent.(type) {
+		case *ast.BlockStmt:
+			list = p.List
+		case *ast.CaseClause:
+			list = p.Body
+		case *ast.CommClause:
+			list = p.Body
+		default:
+			return nil
+		}
+		idx := -1
+		for k, st := range list {
+			if st == top {
+				idx = k
+			}
+		}
+		if idx < 0 {
+			return nil
+		}
+		places[i] = place{list, idx}
+	}
+	lo, hi := 0, 0 // extension before / after
+	for {
+		ok := true
+		for i := range places {
+			k, k0 := places[i].idx-(lo+1), places[0].idx-(lo+1)
+			if k < 0 || k0 < 0 || text(places[i].list[k]) != text(places[0].list[k0]) {
+				ok = false
+			}
+		}
+		if !ok {
+			break
+		}
+		lo++
+	}
+	for {
+		ok := true
+		for i := range places {
+			k, k0 := places[i].idx+hi+1, places[0].idx+hi+1
+			if k >= len(places[i].list) || k0 >= len(places[0].list) || text(places[i].list[k]) != text(places[0].list[k0]) {
+				ok = false
+			}
+		}
+		if !ok {
+			break
+		}
+		hi++
+	}
+	for i := range places {
+		run := places[i].list[places[i].idx-lo : places[i].idx+hi+1]
+		bad := false
+		for _, st := range run {
+			core.Inspect(st, func(m ast.Node) bool {
+				switch x := m.(type) {
+				case *ast.ReturnStmt:
+					bad = true
+				case *ast.BranchStmt:
+					if x.Tok == token.CONTINUE && x.Label == nil || x.Tok == token.GOTO {
+						// (a continue of a loop inside the run is fine; one of the host loop is not)
+						inner := false
+						for _, pn := range core.PathTo(st, x) {
+							switch pn.(type) {
+							case *ast.ForStmt, *ast.RangeStmt:
+								inner = true
+							}
+						}
+						if !inner || x.Tok == token.GOTO {
+							bad = true
+						}
+					}
+				}
+				return true
+			})
+		}
+		if bad {
+			return nil
+		}
+		runs = append(runs, run)
+	}
+	// copies must not overlap
+	for i := range runs {
+		for j := range runs {
+			if i != j && runs[i][0].Pos() <= runs[j][0].Pos() && runs[j][0].Pos() < runs[i][len(runs[i])-1].End() {
+				return nil
+			}
+		}
+	}
+	return runs
 }
